@@ -316,7 +316,7 @@ def run_hist_case(text, plan, expect, tag):
     path = os.path.join(WORK, f"hist_{tag}.mir")
     with open(path, "w") as f:
         f.write(text)
-    rc, out, err = run_capped([THUNK, "hist", path], plan, timeout=60)
+    rc, out, err = run_capped([THUNK, "hist", path], plan, timeout=15)
     os.remove(path)
     lines = out.split("\n")
     if rc != 0 or any(l.startswith("E ") for l in lines):
@@ -393,12 +393,14 @@ def shrink_hist(c):
         e = [exp_of[i] for i in ls_idx if i in exp_of]
         bad, _ = run_hist_case(text, p, e, "shrink")
         return bad is not None and bad[0] != "INADMISSIBLE" and (kind0 is None or bad[0][:24] == kind0[:24])
+    import time as _t
+    deadline = _t.time() + (25 if quick else 120)
     idx = list(range(len(lines)))
-    while len(idx) > 3 and fails(idx[:-1]):
+    while len(idx) > 3 and _t.time() < deadline and fails(idx[:-1]):
         idx = idx[:-1]
     i = len(idx) - 2
     tries = 0
-    while i >= 2 and tries < 40:
+    while i >= 2 and tries < 40 and _t.time() < deadline:
         cand = idx[:i] + idx[i + 1:]
         tries += 1
         if not lines[idx[i]].startswith(("load", "redef")) and fails(cand):
@@ -463,6 +465,8 @@ def check_prog_batch(engines, batch, tag, env=None):
     norders = max(len(pl) for _, pl in batch)
     seen = {}
     for o in range(norders):
+        if len(ENOUGH) >= 10:   # plenty of failing programs already: the rest of the run would only repeat them
+            break
         text = "".join(P.text() for P, _ in batch)
         plan = "".join(pl[o % len(pl)] for _, pl in batch)
         import time as _t
@@ -482,6 +486,9 @@ def check_prog_batch(engines, batch, tag, env=None):
                 if rc1 != 0 or bad_lines(l1) or len(r1) != n1:
                     fails.append({"prog": P, "plan": pl[o % len(pl)], "engines": engines, "lines": bad_lines(l1)[:6], "rc": rc1,
                                   "err": e1.strip()[-300:], "env": env or {}})
+                    ENOUGH.append(1)
+                    if len(ENOUGH) >= 10:
+                        break
             if rc == -99:
                 break   # a hang: the other orders would only hang again
             continue
@@ -500,6 +507,7 @@ def check_prog_batch(engines, batch, tag, env=None):
     return fails, nev
 
 
+ENOUGH = []
 KNOWN_ABORT = re.compile(r"Fatal failure in matching insn")
 
 
@@ -511,9 +519,23 @@ def classify_prog_failure(f):
     if any(l.startswith("ORDER-DEPENDENT") for l in f["lines"]):
         return "c03"
     rc, lines, err = run_iface(GEN_ONLY, f["prog"].text(), f["plan"], f"classify_{f['prog'].name}", {"C03_TRASH": "none"}, timeout=12)
-    if rc != 0 or bad_lines(lines):
-        f["gen_only"] = (bad_lines(lines) + [f"rc={rc} {err.strip()[-100:]}"])[:2]
-        return "c01"
+    bl = bad_lines(lines)
+    if rc != 0:
+        f["gen_only"] = (bl + [f"rc={rc} {err.strip()[-100:]}"])[:2]
+        return "c01"    # eager generation alone aborts / hangs
+    if bl:
+        f["gen_only"] = bl[:2]
+        # level-dependent result of eager generation = a generator (optimizer) defect.  When every level agrees
+        # and only the interpreter differs, the interpreter's own calls (ff-call -> thunk -> shim) are suspect: ours
+        for l in bl:
+            if l[:2] in ("P ", "H ", "W ") and " | " in l:
+                r = [x.rstrip("*") for x in l.split(" | ")[1].split()]
+                if len(r) == len(GEN_ONLY) and len(set(r[1:])) > 1:
+                    return "c01"
+        if all(l.startswith("A ") for l in bl):
+            return "c03"
+        f["lines"] = f["lines"] + ["with eager generation only (interp gen0 gen1 gen2 gen3): " + bl[0][:200]]
+        return "c03"
     return "c03"
 
 
@@ -521,8 +543,13 @@ def shrink_prog_failure(f):
     """keep only the plan lines needed, then shrink the body of the entry function if a `prog` line fails"""
     text, plan, engines, env = f["prog"].text(), f["plan"], f["engines"], f["env"]
 
+    import time as _t
+    deadline = _t.time() + (40 if quick else 240)
+
     def fails(t, p):
-        rc, lines, err = run_iface(engines, t, p, "shrinkp", env, timeout=40)
+        if _t.time() > deadline:
+            return False
+        rc, lines, err = run_iface(engines, t, p, "shrinkp", env, timeout=20)
         return rc != 0 or bool(bad_lines(lines))
     pl = [l for l in plan.strip().split("\n")]
     # drop suffix after the first failing line
@@ -530,7 +557,7 @@ def shrink_prog_failure(f):
         pl = pl[:-1]
     i = len(pl) - 2
     tries = 0
-    while i >= 0 and tries < 30:
+    while i >= 0 and tries < 30 and _t.time() < deadline:
         cand = pl[:i] + pl[i + 1:]
         tries += 1
         if fails(text, "\n".join(cand) + "\n"):
@@ -538,10 +565,12 @@ def shrink_prog_failure(f):
         i -= 1
     plan = "\n".join(pl) + "\n"
     last = pl[-1].split()
-    if last[0] == "prog" and not any(l.startswith("ORDER") for l in f["lines"]):
+    if last[0] == "prog" and not any(l.startswith("ORDER") for l in f["lines"]) and _t.time() < deadline:
         try:
             def run_engine_env(exe, engs, t, p, workdir, tag, timeout=25, quiet=True):
-                rc, lines, err = run_iface(engs, t, p, "shrinkt", env, timeout=timeout)
+                if _t.time() > deadline:
+                    return 0, [], ""
+                rc, lines, err = run_iface(engs, t, p, "shrinkt", env, timeout=min(timeout, 15))
                 return rc, lines, err
             saved = progtie.run_engine
             progtie.run_engine = run_engine_env
@@ -617,7 +646,12 @@ def stage_programs():
     seen_sig = set()
     reported = 0
     c01_samples = dropped[:3]
+    import time as _t
+    t_cls = _t.time()
     for f in fails:
+        if reported >= 4 or _t.time() - t_cls > (90 if quick else 600):
+            classes["unclassified"] = classes.get("unclassified", 0) + 1
+            continue
         cls = classify_prog_failure(f)
         classes[cls] += 1
         if cls == "c01":
@@ -644,10 +678,59 @@ def stage_programs():
                            str((bad_lines(lines) or f["lines"] or [f["err"][-150:]])[0])[:300]), signature=None)
     d = ck.cov.setdefault("distribution", {})
     d["programs"] = {"programs": nprog, "harness_runs": len(jobs), "generated_constructs": stats, "failures_c01_class": classes["c01"], "programs_dropped_generator_fails_while_linking": len(dropped),
-                     "failures_c03": classes["c03"], "c01_class_samples": c01_samples,
+                     "failures_c03": classes["c03"], "failures_not_classified_after_enough_reports": classes.get("unclassified", 0), "c01_class_samples": c01_samples,
                      "engine_sets": [ENG5] + LEVELS + MIXES + [["interp", "interpc", "gen2", "lazy2", "(allocator clobbers xmm8-15 too)"]]}
     ck.sample({"program_plan_head": progs[0][1][1].split("\n")[:8]})
     return nprog, nev
+
+
+# ====================================================================== (E) real C programs (thorough)
+def run_c2m(c2m, src, flag, level):
+    rc, out, err = run_capped([c2m, f"-O{level}", src, flag], "", timeout=20, env={"LC_ALL": "C"})
+    return rc, out[:20000], err[-300:]
+
+
+def stage_real(c2m):
+    """the repository's own C test programs compiled by c2m and executed under -ei (interpreter), -eg (eager
+    generation), -el (lazy generation), -eb (lazy bb generation): exit code and stdout must coincide"""
+    files = []
+    for d in ("new", "lacc", "andrewchambers_c"):
+        files += sorted(glob.glob(os.path.join(REPO, "c-tests", d, "*.c")))
+    files = [f for f in files if not os.path.exists(f + ".disable")]
+    rng = ck.rng
+    todo = [(f, rng.below(4)) for f in files]
+    st = {"files": len(todo), "compared": 0, "skipped_not_compiling": 0, "differ_eager_vs_interp": 0, "differ_lazy_or_bb_only": 0}
+
+    def one(job):
+        f, lv = job
+        r = {k: run_c2m(c2m, f, k, lv) for k in ("-ei", "-eg", "-el", "-eb")}
+        return f, lv, r
+    nrep = 0
+    with ThreadPoolExecutor(max_workers=14) as ex:
+        for f, lv, r in ex.map(one, todo):
+            ref = r["-ei"]
+            if all(x[0] not in (0,) and not x[1] for x in r.values()) and len({x[0] for x in r.values()}) == 1:
+                st["skipped_not_compiling"] += 1
+                continue
+            st["compared"] += 1
+            key = lambda x: (x[0], x[1])
+            if key(r["-eg"]) != key(ref):
+                st["differ_eager_vs_interp"] += 1     # C01 / C16 territory
+                continue
+            bad = [k for k in ("-el", "-eb") if key(r[k]) != key(r["-eg"])]
+            if bad:
+                st["differ_lazy_or_bb_only"] += 1
+                if nrep < 3:
+                    nrep += 1
+                    k = bad[0]
+                    ck.violation({"stage": "real", "file": os.path.relpath(f, REPO), "level": lv, "flag": k,
+                                  "expected": {"rc": ref[0], "stdout_head": ref[1][:300]},
+                                  "observed": {"rc": r[k][0], "stdout_head": r[k][1][:300], "stderr_tail": r[k][2]},
+                                  "how_to_rerun": f"c2m -O{lv} {os.path.relpath(f, REPO)} {k}   (vs -ei / -eg)"},
+                                 what=f"c2m -O{lv} {os.path.relpath(f, REPO)} behaves differently under {k} (rc {r[k][0]}) than under -ei and -eg (rc {ref[0]})",
+                                 signature=None)
+    ck.cov.setdefault("distribution", {})["real_programs"] = st
+    return st
 
 
 # ====================================================================== corpus / known findings / replay
@@ -731,7 +814,17 @@ def main():
     ck.stage("regs", **rst)
     nprog, nev = stage_programs()
     ck.stage("programs", programs=nprog, evaluations=nev)
-    ck.cov["evaluations"] = cst.get("cases", 0) + nhev + rst.get("cases", 0) + nev + ncorp
+    nreal = 0
+    if not quick:
+        c2m = ck.cc("c03_c2m", [os.path.join(REPO, f) for f in ("mir.c", "mir-gen.c", "c2mir/c2mir.c", "c2mir/c2mir-driver.c")],
+                    flags=["-O1", "-DNDEBUG", "-w"])
+        if c2m is None:
+            ck.broken_ties.append({"kind": "harness-compile", "name": "c03_c2m", "log": getattr(ck, "last_cc_log", "")[-1500:]})
+        else:
+            rst2 = stage_real(c2m)
+            nreal = rst2["compared"] * 4
+            ck.stage("real_programs", **rst2)
+    ck.cov["evaluations"] = cst.get("cases", 0) + nhev + rst.get("cases", 0) + nev + ncorp + nreal
     ck.cov["distinct_nontrivial"] = cst.get("cases", 0) + nhnt + nprog
     ck.cov["corpus_replayed"] = ncorp
     ck.cov["rule"] = ("codec: (thunk address, target) pairs — 24 boundary displacements (0, +-1, +-2^31 and neighbours, +-2^32, +-2^40, 2^62, 2^63) per "
